@@ -602,6 +602,22 @@ fn arms_family() {
             let d = CN::disconnect(&left, &Some(CN::iden(ctx))).unwrap();
             CN::pair(&CN::drop_(&CN::iden(ctx)), &d).unwrap()
         })),
+        ("disconnect(iden,pair(iden,iden))", Box::new(|ctx| {
+            // right child widens: C -> C x C
+            let r = CN::pair(&CN::iden(ctx), &CN::iden(ctx)).unwrap();
+            CN::disconnect(&CN::iden(ctx), &Some(r)).unwrap()
+        })),
+        ("disconnect(iden,comp(pair(iden,iden),drop(drop iden)))", Box::new(|ctx| {
+            // right child narrows (X x Y -> Y) and allocates a frame of its own before it has read all of its input
+            let r = CN::comp(&CN::pair(&CN::iden(ctx), &CN::iden(ctx)).unwrap(), &CN::drop_(&CN::drop_(&CN::iden(ctx)))).unwrap();
+            CN::disconnect(&CN::iden(ctx), &Some(r)).unwrap()
+        })),
+        ("comp(pair(drop iden,take iden),pair(comp(drop iden,iden),take iden))", Box::new(|ctx| {
+            // a Back entry directly followed by comp's MoveWriteFrameToRead, and the enclosing frame read again
+            let swap = CN::pair(&CN::drop_(&CN::iden(ctx)), &CN::take(&CN::iden(ctx))).unwrap();
+            let inner = CN::comp(&CN::drop_(&CN::iden(ctx)), &CN::iden(ctx)).unwrap();
+            CN::comp(&swap, &CN::pair(&inner, &CN::take(&CN::iden(ctx))).unwrap()).unwrap()
+        })),
         ("pair(assertl(drop iden),iden) / assertr", Box::new(|ctx| {
             let c = CN::assertl(&CN::drop_(&CN::iden(ctx)), simplicity::Cmr::unit()).unwrap();
             CN::pair(&c, &CN::iden(ctx)).unwrap()
